@@ -307,6 +307,9 @@ def run(ctx):
   # the millisecond quantiser does not depend on the rate: validated with the first rate's run
   per_rate[RATES[0][0]].extend(ms_records(ctx.rng, ctx.tier))
 
+  if os.environ.get("VERIF_CORRUPT"):
+    # self-test of the binding: corrupt ONE recorded field; the run must end in a violation
+    per_rate["25"][0]["lab"][5] += 1
   frames_total = 0
   for name, num, den, fps, drop in RATES:
     for rec in per_rate[name]:
